@@ -118,7 +118,7 @@ def make_job(gid, wtm, sq, timeout, max_own=None, max_total=0):
     mo = g[4] if max_own is None else max_own
     name, src = instance(gid, wtm, sq, mo, max_total)
     return Job(name, f"{g[1]}: watched move pushed once iff legal and in class; {'white' if wtm else 'black'} king on {SQN(sq)}, all other men symbolic",
-               gen=src, timeout=timeout, mem_gb=24, checks="functional", witness=False, unwind=2, unwindset=unwindset(gid, mo),
+               gen=src, timeout=timeout, mem_gb=24, weight_gb=6 if gid == 0 else 2.5, checks="functional", witness=False, unwind=2, unwindset=unwindset(gid, mo),
                params={"generator": g[1], "white": wtm, "king": SQN(sq), "max_own_looped": mo, "max_total": max_total},
                # castling is only possible from the home square: elsewhere the harness shows "never emitted" and has no positive witness
                min_covers=0 if (gid == 10 and sq != (4 if wtm else 60)) else 1)
